@@ -18,6 +18,12 @@ type Clause struct {
 	Line  int
 }
 
+type AtClause struct {
+	Vars   []string // free-variable names the closure must capture
+	Callee string   // `at call NAME: assert E` (arguments are arg0, arg1, ...)
+	Clause Clause
+}
+
 type LoopSpec struct {
 	Invariants []Clause
 	Decreases  *Clause
@@ -48,6 +54,7 @@ type Block struct {
 	File     string
 	Line     int
 	Parent   *Block
+	AtClosure []AtClause // `at closure [x, y]: assert E`: holds where a closure capturing x, y is created
 	Writers  []string // `global` block: functions allowed to write the variable
 	Notes    []string // stated assumption behind a declaration
 	Effects  string   // "stdout": the function may write to standard output
@@ -67,10 +74,11 @@ type SpecFun struct {
 var clauseKw = map[string]bool{"props": true, "requires": true, "ensures": true, "fails_iff": true, "nopanic": true,
 	"pure": true, "trusted": true, "inline": true, "modifies": true, "uses": true, "loop": true, "opcase": true,
 	"assume": true, "unfold": true, "fresh": true, "let": true, "preserves": true, "abstract": true,
-	"writers": true, "note": true, "effects": true}
+	"writers": true, "note": true, "effects": true, "at": true}
 var blockKw = map[string]bool{"iface": true, "functype": true, "func": true, "closure": true, "global": true, "entry": true, "spec": true, "define": true, "rec": true, "axioms": true, "lemma": true}
 
 var labelRe = regexp.MustCompile(`^#([A-Za-z0-9_.\-]+)\s+`)
+var _ = "unfold@return is written as: unfold @return f(result, x)"
 var propTagRe = regexp.MustCompile(`^@(C[0-9]+(?:,C[0-9]+)*)\s+`)
 
 // ParseContracts reads all contract files: /repo/**/zz_contracts_verif.go
@@ -303,6 +311,37 @@ func (P *Program) ParseContracts(mirrorDir, specDir string) error {
 					default:
 						return fmt.Errorf("%s: loop N invariant|decreases EXPR", where)
 					}
+				case "at":
+					// at closure [a, b]: assert #label EXPR
+					r := strings.TrimSpace(rest)
+					if strings.HasPrefix(r, "call ") {
+						// at call NAME: assert #label EXPR
+						r = strings.TrimSpace(strings.TrimPrefix(r, "call "))
+						c, k := strings.IndexByte(r, ':'), strings.Index(r, "assert")
+						if c < 0 || k < c {
+							return fmt.Errorf("%s: at call NAME: assert EXPR", where)
+						}
+						tgt.AtClosure = append(tgt.AtClosure, AtClause{Callee: strings.TrimSpace(r[:c]), Clause: mk(strings.TrimSpace(r[k+len("assert"):]))})
+						last = &tgt.AtClosure[len(tgt.AtClosure)-1].Clause
+						continue
+					}
+					if !strings.HasPrefix(r, "closure") {
+						return fmt.Errorf("%s: at closure [vars]: assert EXPR", where)
+					}
+					r = strings.TrimSpace(strings.TrimPrefix(r, "closure"))
+					lb, rb := strings.IndexByte(r, '['), strings.IndexByte(r, ']')
+					k := strings.Index(r, "assert")
+					if lb != 0 || rb < 0 || k < rb {
+						return fmt.Errorf("%s: at closure [vars]: assert EXPR", where)
+					}
+					var vars []string
+					for _, v := range strings.Split(r[lb+1:rb], ",") {
+						if v = strings.TrimSpace(v); v != "" {
+							vars = append(vars, v)
+						}
+					}
+					tgt.AtClosure = append(tgt.AtClosure, AtClause{Vars: vars, Clause: mk(strings.TrimSpace(r[k+len("assert"):]))})
+					last = &tgt.AtClosure[len(tgt.AtClosure)-1].Clause
 				case "opcase":
 					if cur == nil {
 						return fmt.Errorf("%s: opcase outside func", where)
@@ -348,7 +387,9 @@ func (P *Program) synthHandlers() {
 			continue
 		}
 		b := &Block{Kind: "func", Name: name, PkgPath: sw.PkgPath, Props: oc.Props, Loops: map[int]*LoopSpec{}, File: oc.File, Line: oc.Line,
-			NoPanic: oc.NoPanic, FailsIff: oc.FailsIff, Ensures: oc.Ensures, PreShift: map[string]int{"v.pc": -1}}
+			NoPanic: oc.NoPanic, FailsIff: oc.FailsIff, Ensures: oc.Ensures, PreShift: map[string]int{"v.pc": -1},
+			// a handler's effect on the VM is stated by its postconditions; no frame is claimed
+			HasMod: true, Modifies: []string{"all"}}
 		b.Uses = append(append([]string{}, sw.Uses...), oc.Uses...)
 		b.Lets = append(append([]Clause{}, sw.Lets...), oc.Lets...)
 		b.Requires = append([]Clause{}, sw.Requires...)
